@@ -8,6 +8,11 @@
 #endif
 int64_t last_now; // the latest clock reading any earlier call has seen (part of the abstract state of TTL/aging containers)
 int64_t cfg_ttl = 100, cfg_tick = 5;
+#ifdef VAL_COUNTED
+extern "C" {
+int64_t g_live, g_bad; // instance accounting of the Counted value type (see api_common.hpp)
+}
+#endif
 // the (state, call) pair of a counterexample, for trace extraction and lifting
 extern "C" {
 int64_t  h_last_now, h_pre_ttl, h_pre_tick;
@@ -51,6 +56,9 @@ extern "C" int harness()
     __vf_assume(ev.now >= last_now && ev.now < TMAX);
     ev.k = nondet_u64();
     ev.v = nondet_u64();
+#ifdef VAL_COUNTED
+    __vf_assume(ev.v != 0xDEADBEEFDEADBEEFull); // the poison of moved-from instances is never written by the caller
+#endif
     ev.a = nondet_u8();
     __vf_assume(ev.a >= 1 && ev.a <= 3);
     ev.pk  = nondet_bool();
